@@ -421,6 +421,9 @@ class Shrinker(object):
         self.evals = 0
         self.max_evals = max_evals
         self.isolated = viol["cls"].endswith(("/crash", "/hang"))
+        if viol["cls"].endswith("/hang"):
+            # every candidate costs a full time-out
+            self.max_evals = min(self.max_evals, 6)
 
     def same(self, res):
         v = res.get("viol")
